@@ -98,7 +98,7 @@ def decimal_text(rng, max_int_digits: int = 10) -> str:
     nd = rng.choice((0, 1, 2, 3, 3))
     ni = rng.choice((1, 1, 2, 3, 4, 6, max_int_digits))
     ip = "".join(rng.choice("0123456789") for _ in range(ni))
-    ip = "0" * rng.choice((0, 0, 1, 3)) + ip
+    ip = "0" * rng.choice((0, 0, 1, 3, 8, 14, 20)) + ip
     return ip + ("." + "".join(rng.choice("0123456789") for _ in range(nd)) if nd else "")
 
 
